@@ -308,11 +308,14 @@ def serve(workdir):
         sys.stdout.flush()
 
 
+TREE_OPS = None      # continuation menu of the stateless explorer (None = every operation)
+
+
 def tree(workdir, first, depth, out_fd, prefix=None):
     """In a pristine process: run `first`, then recursively every continuation up to `depth` operations in total.
     Every node writes one JSON line {"hist": [...], "outcome": [...], "snap": key} to out_fd."""
     prefix = (prefix or [])
-    for name in ([first] if first else OP_NAMES):
+    for name in ([first] if first else (TREE_OPS or OP_NAMES)):
         pid = os.fork()
         if pid == 0:
             try:
@@ -352,6 +355,7 @@ def accumulate(workdir, op, counts, out_fd):
 
 
 def main():
+    global TREE_OPS
     mode, workdir = sys.argv[1], sys.argv[2]
     if mode == "one":
         _import_pristine()
@@ -364,6 +368,8 @@ def main():
         serve(workdir)
     elif mode == "tree":
         _import_pristine()
+        if len(sys.argv) > 5:
+            TREE_OPS = sys.argv[5].split(",")
         tree(workdir, sys.argv[3], int(sys.argv[4]), 1)
     elif mode == "accum":
         _import_pristine()
